@@ -246,6 +246,9 @@ pub enum BOp {
     Ack,
     SetFooter(String),
     SetAssertion(String),
+    /// `GenericBuilder::build_payload_from_claims()` called directly between other calls (it must describe
+    /// the claims set so far and leave the builder as it was)
+    PeekPayload,
 }
 
 #[derive(Serialize, Deserialize, Clone, Debug, PartialEq)]
@@ -605,7 +608,12 @@ pub struct DeliverObs {
 pub enum Obs {
     Skipped(String),
     NewBuilder { reads: Vec<(String, Ns)>, panic: Option<String> },
-    BuilderOp { applied: bool, panic: Option<String> },
+    BuilderOp {
+        applied: bool,
+        panic: Option<String>,
+        #[serde(default, skip_serializing_if = "Option::is_none")]
+        peek: Option<Result<String, String>>,
+    },
     Build { result: Outcome, draws: Vec<DrawObs>, reads: Vec<(String, Ns)> },
     Issue { result: Outcome },
     Fault { text: Option<String> },
